@@ -705,3 +705,154 @@ Qed.
 Opaque W32.
 Lemma pow2_capacity_ok k i its : (k <= 32)%N -> no_wrap_or_dividing (2 ^ k) i its.
 Proof. intros H. left. exact (pow2_divides k H). Qed.
+(* ---------- every run completes: the round-robin completion ends with both processes ended ---------- *)
+Definition rank_p (p : ppc) : N :=
+  match p with PPush1 _ => 6 | PPush2 _ _ => 5 | PPush3 _ => 4 | PPush4 _ => 3 | PPush5 _ => 2 | PNotify => 1 | PDone => 0 end.
+Definition rank_c (c : cpc) : N :=
+  match c with CClr1 => 9 | CClr2 => 8 | CPop1 => 7 | CPop2 => 6 | CPop3 => 5 | CPop4 => 4 | CPop5 _ => 3 | CPop6 _ => 2
+             | CIdle => 1 | CDone => 0 end.
+(* the current item may still be counted into theSize / the push in flight may still produce a notification *)
+Definition fut (p : ppc) : N := match p with PPush1 _ | PPush2 _ _ | PPush3 _ => 1 | _ => 0 end.
+Definition sig_ind (p : ppc) : N := match p with PPush4 _ | PPush5 _ | PNotify => 1 | _ => 0 end.
+Definition work (s : state) : N :=
+  rank_p (pp s) + 7 * lenN (items s) + rank_c (cp s) + 10 * size s + 20 * (fut (pp s) + lenN (items s))
+  + 10 * (notifs s + sig_ind (pp s) + polls s).
+
+Ltac wk := unfold work; cbn; rewrite ?wrap32_small by lia; rewrite ?wrap32_dec by lia; cbn [lenN]; try lia.
+
+Lemma pstep_work s : Inv1 s -> pdone s = false -> work (fst (pstep s)) < work s.
+Proof.
+  destruct s as [cap0 i00 tin0 tout0 size0 blocked0 signal0 buf0 notifs0 polls0 pp0 items0 cp0 acc0 pushed0 popped0].
+  intros [Hcap Hsize Hroom Hcomm Hblk Hsig Hwake Hdone]; cbn in *.
+  unfold pdone, pstep, finish_push, advance; cbn.
+  destruct pp0; cbn in *; intros Hp; try discriminate.
+  - destruct (size0 =? cap0) eqn:E; [destruct items0|]; wk.
+  - wk.
+  - destruct (size0 =? 0) eqn:E; [|destruct items0]; wk.
+  - destruct blocked0; [|destruct items0]; wk.
+  - destruct signal0; [destruct items0|]; wk.
+  - destruct items0; wk.
+Qed.
+
+Lemma cstep_work s : Inv1 s -> cdone s = false ->
+  work (fst (cstep s)) < work s \/ (fst (cstep s) = s /\ pdone s = false).
+Proof.
+  destruct s as [cap0 i00 tin0 tout0 size0 blocked0 signal0 buf0 notifs0 polls0 pp0 items0 cp0 acc0 pushed0 popped0].
+  intros [Hcap Hsize Hroom Hcomm Hblk Hsig Hwake Hdone]; cbn in *.
+  unfold cdone, cstep; cbn.
+  destruct cp0; cbn in *; intros Hc; try discriminate.
+  - left; wk.
+  - left; wk.
+  - left; destruct (size0 =? 0) eqn:E; wk.
+  - left; wk.
+  - left; destruct (size0 =? 0) eqn:E; wk.
+  - left; wk.
+  - left; wk.
+  - left; wk.
+  - destruct (0 <? notifs0) eqn:E1; [left; wk|destruct (0 <? polls0) eqn:E2; [left; wk|]].
+    unfold pdone; cbn. destruct pp0; cbn; try (right; split; reflexivity). left; wk.
+Qed.
+
+Lemma exec2 s : fst (fst (exec s [0; 1])) = fst (fst (step (fst (fst (step s 0))) 1)).
+Proof.
+  cbn [exec]. destruct (step s 0) as [[a b] c]. cbn [fst]. destruct (step a 1) as [[d e] f]. reflexivity.
+Qed.
+Lemma step0_state s : fst (fst (step s 0)) = if pdone s then s else fst (pstep s).
+Proof. unfold step. change (0 =? 0) with true. cbv iota. destruct (pdone s); [reflexivity|]. destruct (pstep s); reflexivity. Qed.
+Lemma step1_state s : fst (fst (step s 1)) = if cdone s then s else fst (cstep s).
+Proof.
+  unfold step. change (1 =? 0) with false. change (1 =? 1) with true. cbv iota.
+  destruct (cdone s); [reflexivity|]. destruct (cstep s); reflexivity.
+Qed.
+
+Lemma round_work s : Inv1 s -> all_done s = false ->
+  Inv1 (fst (fst (exec s [0; 1]))) /\ work (fst (fst (exec s [0; 1]))) < work s.
+Proof.
+  intros H1 Hnd. rewrite exec2, step0_state.
+  destruct (pdone s) eqn:Ep.
+  - (* producer ended: the consumer makes progress *)
+    rewrite step1_state. unfold all_done in Hnd. rewrite Ep in Hnd. cbn in Hnd. rewrite Hnd.
+    pose proof (cstep_inv1 s H1) as Hi. pose proof (cstep_work s H1 Hnd) as Hw.
+    split; [exact Hi|]. destruct Hw as [Hw|[_ Hw]]; [exact Hw|congruence].
+  - pose proof (pstep_inv1 s H1) as Hi. pose proof (pstep_work s H1 Ep) as Hw.
+    rewrite step1_state. destruct (cdone (fst (pstep s))) eqn:Ec.
+    + split; assumption.
+    + pose proof (cstep_inv1 _ Hi) as Hi2. pose proof (cstep_work _ Hi Ec) as Hw2.
+      split; [exact Hi2|]. destruct Hw2 as [Hw2|[Hw2 _]]; [lia|rewrite Hw2; exact Hw].
+Qed.
+
+Lemma rr_completes fuel : forall s, Inv1 s -> work s < N.of_nat fuel ->
+  exists s' evs n, run_rr fuel s = Some (s', evs, n) /\ all_done s' = true /\ Inv1 s'.
+Proof.
+  induction fuel as [|f IH]; intros s H1 Hw. { lia. }
+  cbn [run_rr]. destruct (all_done s) eqn:Ed. { eauto 6. }
+  destruct (round_work s H1 Ed) as [Hi Hlt].
+  destruct (exec s [0; 1]) as [[s1 e1] n1]. cbn [fst] in *.
+  destruct (IH s1 Hi ltac:(lia)) as (s' & evs & n & Hr & Hd & Hi').
+  rewrite Hr. eauto 8.
+Qed.
+
+Lemma rounds_enough s : work s < N.of_nat (rounds s).
+Proof.
+  unfold rounds. rewrite N2Nat.id. unfold work.
+  assert (rank_p (pp s) <= 6) by (destruct (pp s); cbn; lia).
+  assert (rank_c (cp s) <= 9) by (destruct (cp s); cbn; lia).
+  assert (fut (pp s) <= 1) by (destruct (pp s); cbn; lia).
+  assert (sig_ind (pp s) <= 1) by (destruct (pp s); cbn; lia).
+  lia.
+Qed.
+
+Theorem run_case_completes c i p its sched : valid_cfg c i ->
+  exists s evs n, run_case c i p its sched = Some (s, evs, n) /\ all_done s = true.
+Proof.
+  intros Hv. unfold run_case.
+  pose proof (exec_inv1 sched (init c i p its) (init_inv1 c i p its Hv)) as H1.
+  destruct (exec (init c i p its) sched) as [[s1 e1] n1]. cbn [fst] in H1.
+  destruct (rr_completes (rounds s1) s1 H1 (rounds_enough s1)) as (s' & evs & n & Hr & Hd & _).
+  rewrite Hr. eauto 8.
+Qed.
+
+
+(* the completion is itself a schedule: whatever run_case reports is a reachable state with its events *)
+Lemma exec_app a : forall b s,
+  exec s (a ++ b) =
+  let '(s1, e1, n1) := exec s a in let '(s2, e2, n2) := exec s1 b in (s2, e1 ++ e2, n1 + n2).
+Proof.
+  induction a as [|t r IH]; intros b s; cbn [app exec].
+  - destruct (exec s b) as [[s2 e2] n2]. cbn. reflexivity.
+  - destruct (step s t) as [[s1 e1] bb]. rewrite IH.
+    destruct (exec s1 r) as [[s2 e2] n2]. destruct (exec s2 b) as [[s3 e3] n3].
+    rewrite app_assoc. f_equal. destruct bb; lia.
+Qed.
+
+Lemma rr_is_schedule fuel : forall s s' evs n, run_rr fuel s = Some (s', evs, n) -> exists sched, exec s sched = (s', evs, n).
+Proof.
+  induction fuel as [|f IH]; intros s s' evs n H; cbn [run_rr] in H.
+  - destruct (all_done s); [|discriminate]. inversion H; subst. exists []. reflexivity.
+  - destruct (all_done s). { inversion H; subst. exists []. reflexivity. }
+    destruct (exec s [0; 1]) as [[s1 e1] n1] eqn:E1.
+    destruct (run_rr f s1) as [[[s2 e2] n2]|] eqn:E2; [|discriminate]. inversion H; subst.
+    destruct (IH _ _ _ _ E2) as [sch Hs]. exists ([0; 1] ++ sch). rewrite exec_app, E1, Hs. reflexivity.
+Qed.
+
+Lemma run_case_is_schedule c i p its sched s evs n :
+  run_case c i p its sched = Some (s, evs, n) -> exists sched', exec (init c i p its) sched' = (s, evs, n).
+Proof.
+  unfold run_case. destruct (exec (init c i p its) sched) as [[s1 e1] n1] eqn:E1.
+  destruct (run_rr (rounds s1) s1) as [[[s2 e2] n2]|] eqn:E2; [|discriminate]. intros H; inversion H; subst.
+  destruct (rr_is_schedule _ _ _ _ _ E2) as [sch Hs]. exists (sched ++ sch). rewrite exec_app, E1, Hs. reflexivity.
+Qed.
+
+(* what the model runner (and, by correspondence, the harness) prints for every case: the run completes, both ended,
+   the popped values are the pushed values, the final drain finds nothing *)
+Theorem run_case_completes_and_delivers c i p its sched :
+  valid_cfg c i -> no_wrap_or_dividing c i its ->
+  exists s evs n, run_case c i p its sched = Some (s, evs, n) /\ all_done s = true /\
+    pops_of evs = map Some (pushes_of evs) /\ drain_all s = [] /\ notifs s = 0 /\ blocked s = true /\ signal s = false.
+Proof.
+  intros Hv Hw. destruct (run_case_completes c i p its sched Hv) as (s & evs & n & Hr & Hd).
+  exists s, evs, n. destruct (run_case_is_schedule _ _ _ _ _ _ _ _ Hr) as [sch Hs].
+  pose proof (completed_run_events c i p its sch s evs n Hv Hw Hs Hd) as He.
+  pose proof (reach_completed_empty c i p its sch Hv) as Hc. unfold reach in Hc. rewrite Hs in Hc. cbn [fst] in Hc.
+  destruct (Hc Hd) as (_ & Hn & Hb & Hsg & Hdr). repeat split; assumption.
+Qed.
